@@ -8,6 +8,8 @@
                              or FUEL / NULLDEREF
    CHECK rev cnt (depth isHole nChildren <path>)*cnt <closed paths> <open paths> <tree-run open paths>
                              -> k (code idx)*      tree_check violations
+   FCC cnt (depth isHole nChildren <path>)*cnt
+                             -> 0/1  fully_contains: the model of CheckPolytreeFullyContainsChildren on that tree
    LEVEL n                   -> is_hole_of_level n *)
 open M
 open Zconv
@@ -95,6 +97,12 @@ let handle t =
         { tn_depth = nat_of_int d; tn_hole = h; tn_path = p }) in
       let closed = read_paths t in let opened = read_paths t in let topen = read_paths t in
       show_codes (tree_check rv nodes closed opened topen)
+  | "FCC" ->
+      let cnt = next_int t in
+      let nodes = List.init cnt (fun _ ->
+        let d = next_int t in let h = next_bool t in let _ = next_int t in let p = read_path t in
+        { tn_depth = nat_of_int d; tn_hole = h; tn_path = p }) in
+      show_bool (fully_contains nodes)
   | "LEVEL" -> show_bool (is_hole_of_level (nat_of_int (next_int t)))
   | c -> "ERR unknown command " ^ c
 
